@@ -156,32 +156,22 @@ def _work(task):
 
 
 def token_agreement(chk):
-    """R06.3: renderers' special literals vs parse_version_specifier's dispatch literals."""
-    tree = module_tree(chk, "specifiers/__init__.py")
-    pv = next((n for n in tree.body if isinstance(n, ast.FunctionDef) and n.name == "parse_version_specifier"), None)
-    chk.require(pv is not None, "anchor parse_version_specifier missing")
-    consts = {c.value for c in ast.walk(pv) if isinstance(c, ast.Constant) and isinstance(c.value, str)}
-    sp = module_tree(chk, "specifiers/special.py")
-    un = module_tree(chk, "specifiers/union.py")
-
-    def str_consts(tree, cls, meth):
-        for c in tree.body:
-            if isinstance(c, ast.ClassDef) and c.name == cls:
-                for f in c.body:
-                    if isinstance(f, ast.FunctionDef) and f.name == meth:
-                        return {k.value for k in ast.walk(f) if isinstance(k, ast.Constant) and isinstance(k.value, str)}
-        chk.broken(f"anchor {cls}.{meth} missing")
-    chk.instance("R06.3", 2)
-    e = str_consts(sp, "EmptySpecifier", "__str__")
-    if not (e & consts):
-        chk.fail("R06.3", "dep_logic.specifiers.special:EmptySpecifier.__str__", f"EmptySpecifier renders as {sorted(e)} but parse_version_specifier dispatches on {sorted(consts)}")
-    else:
-        chk.ok("R06.3", key="empty")
-    u = str_consts(un, "UnionSpecifier", "__str__")
-    if not (u & consts):
-        chk.fail("R06.3", "dep_logic.specifiers.union:UnionSpecifier.__str__", f"UnionSpecifier joins with {sorted(u)} but parse_version_specifier splits on {sorted(consts)}")
-    else:
-        chk.ok("R06.3", key="union-glue")
+    """R06.3: the special renderings ('<empty>', '' for the universal set, '||' between alternatives) are read back by the
+    interpreted parse_version_specifier as the same objects (decided by interpretation, so extracting helpers or moving the
+    dispatch does not matter)."""
+    d = dom(str(chk.src))
+    it = d.it
+    v1, v2, v3 = d.V("1.0"), d.V("2.0"), d.V("3.0")
+    cases = [("empty", it.construct(d.Empty, [], {})), ("universal-range", d.rng()), ("any", it.construct(d.Any, [], {})),
+             ("two-range-union", d.union(d.rng(hi=v1, ih=True), d.rng(lo=v2, il=False))),
+             ("three-range-union", d.union(d.rng(hi=v1), d.rng(v2, v2, True, True), d.rng(lo=v3, il=True)))]
+    for label, s in cases:
+        chk.instance("R06.3")
+        fails = []
+        if roundtrip(d, s, fails, f"special token: {label}"):
+            chk.ok("R06.3", key=label)
+        for f in fails:
+            chk.fail("R06.3", f[1], f[2], f[3])
 
 
 def run(chk):
@@ -192,7 +182,7 @@ def run(chk):
         "round trip must be the identity under the interpreted __eq__. Plus a token-agreement rule between renderers and the parser.")
     chk.rule("R06.1", "str() succeeds and parses back equal")
     chk.rule("R06.2", "operators do not raise on pool operands (their results are round-tripped under R06.1)")
-    chk.rule("R06.3", "token agreement renderer <-> parser", min_instances=2)
+    chk.rule("R06.3", "special renderings (<empty>, universal, ||) are read back as the same objects", min_instances=5)
     d = dom(src)
     ops, vs = operands(d, chk.tier)
     n = len(ops)
